@@ -5,7 +5,9 @@
 //!
 //! Scenario (JSON): {"name":..,"workers":1..2,"shutdown_s":1..2,"conns":N,"stop":"graceful"|"forced",
 //!   "release":[{"c":0,"at":"before_stop"|"never"|<ms after stop>}], "second_stop":bool, "drop_future":bool,
-//!   "pause_first":bool, "late_connect":bool}
+//!   "pause_first":bool, "late_connect":bool, "stop_gap_ms":N}
+//! stop_gap_ms: the server thread is held for N ms between telling the accept thread to stop and sending Stop to the
+//! workers (hook `stop_gap`): the schedule "accept thread exits before the workers hear about the stop".
 //! Signal scenarios run in a child process (`vsrv e2e-child`), see `run_signal_scenario`.
 
 use std::{
@@ -52,6 +54,21 @@ impl Log {
     }
 }
 
+/// lives inside a service future: reports a future that is dropped before it completed
+struct KillNote {
+    log: Log,
+    c: usize,
+    finished: bool,
+}
+
+impl Drop for KillNote {
+    fn drop(&mut self) {
+        if !self.finished {
+            self.log.emit(json!({"e": "ConnKilled", "c": self.c}));
+        }
+    }
+}
+
 fn wait_until(timeout: Duration, f: impl Fn() -> bool) -> bool {
     let t = Instant::now();
     while t.elapsed() < timeout {
@@ -76,7 +93,10 @@ pub fn run_scenario(sc: &Value) -> Vec<Value> {
     let (tx, rx) = mpsc::channel();
     let slog = log.clone();
     let rel = release.clone();
+    let stop_gap = sc["stop_gap_ms"].as_u64().unwrap_or(0);
     let srv_thread = thread::spawn(move || {
+        // the Server future (and with it handle_cmd) is polled on this thread
+        actix_server::verif::set_stop_gap_ms(stop_gap);
         let sys = actix_rt::System::new();
         sys.block_on(async move {
             let lst = std::net::TcpListener::bind("127.0.0.1:0").unwrap();
@@ -100,9 +120,12 @@ pub fn run_scenario(sc: &Value) -> Vec<Value> {
                             }
                             let c = b[0] as usize;
                             l4.emit(json!({"e": "ConnStarted", "c": c, "thread": format!("{:?}", thread::current().id())}));
+                            // dropped before the service future completed = the connection was torn down
+                            let mut note = KillNote { log: l4.clone(), c, finished: false };
                             while !rel.get(c).map(|f| f.load(Ordering::SeqCst)).unwrap_or(true) {
                                 tokio::time::sleep(Duration::from_millis(5)).await;
                             }
+                            note.finished = true;
                             l4.emit(json!({"e": "ConnFinished", "c": c}));
                             Ok(())
                         }
